@@ -238,6 +238,9 @@ def zoom(array, zoom, out=None, order=3, mode='constant', cval=0.0, prefilter=Tr
     if out.dtype != array.dtype:
         o_out = out
         out = np.empty(out.shape, array.dtype)
+    if np.may_share_memory(array, out):
+        # the kernel reads its input while it writes the output
+        array = array.copy()
     _interpolate.zoom_shift(array, zoom, None, out, order, mode2int[mode], cval)
     if o_out is not None:
         o_out[:] = out[:]
@@ -289,6 +292,9 @@ def shift(array, shift, out=None, order=3, mode='constant', cval=0.0,
     array = _maybe_filter(array, order, 'interpolate.shift', prefilter, dtype=np.float64)
     _check_mode(mode, cval, 'interpolation.shift')
     output = internal._get_output(array, out, 'interpolate.shift', dtype=np.float64, output=output)
+    if np.may_share_memory(array, output):
+        # the kernel reads its input while it writes the output
+        array = array.copy()
     # a private copy: the sign is flipped below and the caller's array must stay as it is
     shift = np.array(shift, dtype=np.float64, ndmin=1)
     if shift.size == 1 and array.ndim > 1:
